@@ -383,26 +383,29 @@ def _geo_len(lat_deg, lon_deg):
 def exact_segment(a, b, grid):
     """Interval oracle for the straight map line a -> b (b longitude unwrapped).
 
-    Returns dict(zero, L, pieces=[dict(lat=labels, lon=labels, raw=len_i / L, t0, t1)]).
+    Returns dict(zero, L, pieces=[dict(lat=labels, lon=labels, raw=len_i / L, t0, t1, first)]);
+    first = (lies on the first latitude line, lies on the first longitude line).
     For a zero-length segment there is one piece holding the whole value (raw = 1).
     """
     glat, glon = grid['lat'], grid['lon']
     d0, d1 = b[0] - a[0], b[1] - a[1]
     if d0 == 0 and d1 == 0:
-        return dict(zero=True, L=0.0, pieces=[dict(lat=_axis_cells(a[0], glat), lon=_axis_cells(a[1], glon, True), raw=1.0, t0=0.0, t1=0.0)])
+        return dict(zero=True, L=0.0, pieces=[dict(lat=_axis_cells(a[0], glat), lon=_axis_cells(a[1], glon, True), raw=1.0, t0=0.0, t1=0.0, first=(a[0] == glat[0], a[1] == glon[0]))])
     ts = sorted(set([Fraction(0), Fraction(1)] + _crossings(a[0], d0, glat, False) + _crossings(a[1], d1, glon, True)))
     lat = [float((a[0] + t * d0) / MDEG) for t in ts]
     lon = [float((a[1] + t * d1) / MDEG) for t in ts]
     lens = _geo_len(lat, lon)
     L = float(_geo_len([lat[0], lat[-1]], [lon[0], lon[-1]])[0])
     if L == 0.0:  # +180 -> -180 at one latitude: the same point written twice
-        return dict(zero=True, L=0.0, pieces=[dict(lat=_axis_cells(a[0], glat), lon=_axis_cells(a[1], glon, True), raw=1.0, t0=0.0, t1=0.0)])
+        return dict(zero=True, L=0.0, pieces=[dict(lat=_axis_cells(a[0], glat), lon=_axis_cells(a[1], glon, True), raw=1.0, t0=0.0, t1=0.0, first=(a[0] == glat[0], a[1] == glon[0]))])
     pieces = []
     for i in range(len(ts) - 1):
         tm = (ts[i] + ts[i + 1]) / 2
+        m0, m1 = a[0] + tm * d0, a[1] + tm * d1
         pieces.append(dict(
-            lat=_axis_cells(a[0] + tm * d0, glat), lon=_axis_cells(a[1] + tm * d1, glon, True),
+            lat=_axis_cells(m0, glat), lon=_axis_cells(m1, glon, True),
             raw=float(lens[i]) / L, t0=float(ts[i]), t1=float(ts[i + 1]),
+            first=(m0 == glat[0], m1 == glon[0]),  # the piece runs along the first grid line
         ))  # fmt: skip
     return dict(zero=False, L=L, pieces=pieces)
 
